@@ -145,6 +145,7 @@ func (r *reader) ConsumeByKey(key []byte, keyHash []byte, offset, maxCount int64
 	if offset == OffsetNewest {
 		return nextOffset, nil, nil
 	}
+	vhook.At("reader.consumebykey.next")
 
 	positions, err := ix.Keys(keyHash)
 	switch err {
